@@ -355,6 +355,10 @@ func modelLog(c *hx.Ctx, r *hx.Rng, logLen int) {
 		default:
 			cmd = u.Gen(kindsModelled)
 		}
+		if streamsAndPrune(in, cmd) {
+			c.Count("stop:schema-clean-with-streams")
+			break
+		}
 		res := in.Apply(cmd)
 		hist = append(hist, cmd.Text+" => "+res.String())
 		c.Emit("cmd "+cmd.Text, res.String())
@@ -537,4 +541,11 @@ func modelScriptedLog(c *hx.Ctx, sc metax.Script, pro []metax.Cmd, cut int) {
 	if cut == total {
 		snap()
 	}
+}
+
+// streamsAndPrune: PruneGroups(shard) may run the schema clean, whose MarkMeasurementDelete is
+// refused for a measurement a stream reads or writes; the model's clean pass does not look at
+// the streams - modelled logs end here (the two-replica and all-kinds runs go on).
+func streamsAndPrune(in *metax.Inst, cmd metax.Cmd) bool {
+	return cmd.Kind == "PruneGroups" && strings.HasPrefix(cmd.Text, "PruneGroups 1 ") && len(in.Data().Streams) > 0
 }
